@@ -94,7 +94,7 @@ def rand_data(rng, kind, n):
     if kind.startswith('np:'):
         dt = kind[3:]
         size = np.dtype(dt).itemsize
-        raw = bytes(rng.getrandbits(8) for _ in range(n * size * 2))
+        raw = rng.getrandbits(8 * n * size * 2).to_bytes(n * size * 2, 'little') if n else b''
         if dt == '?':
             base = np.frombuffer(bytes(b & 1 for b in raw), dtype='?').copy()
         else:
@@ -156,6 +156,8 @@ class Program(object):
         self.version = 4712
         self.index = False          # False / True
         self.target = 'stream'      # 'stream' | 'path'
+        self.reuse_objects = False  # one ChannelObject / GroupObject instance re-used with reassigned attributes
+        self.precreate_empty = False  # path target: an empty file exists already and the first session appends to it
         self.source = None          # optional: channels of a file read with TdmsFile.read, passed on as TdmsGroup/TdmsChannel objects
 
     def describe(self):
@@ -168,7 +170,8 @@ class Program(object):
                             {k: (p.note, repr(p.value)[:40]) for k, p in (o.get('props') or {}).items()}) for o in seg])
             out.append(so)
         src = None if self.source is None else [(n, t, len(v)) for n, t, v in self.source['channels']]
-        return {'version': self.version, 'index': self.index, 'target': self.target, 'sessions': out, 'source_file_channels': src}
+        return {'version': self.version, 'index': self.index, 'target': self.target, 'sessions': out, 'source_file_channels': src,
+                'reuse_objects': self.reuse_objects, 'precreate_empty': self.precreate_empty}
 
 
 def gen_program(rng, types_mod, max_sessions=3, max_segments=5, max_objects=5, lens=(0, 1, 2, 3, 7, 20, 50)):
@@ -180,6 +183,9 @@ def gen_program(rng, types_mod, max_sessions=3, max_segments=5, max_objects=5, l
     chan_kinds = {}
     if rng.random() < 0.3:
         prog.source = gen_source(rng)
+    prog.reuse_objects = rng.random() < 0.2
+    prog.precreate_empty = prog.target == 'path' and rng.random() < 0.25
+    big_budget = [1] if rng.random() < 0.01 else []       # rarely: one array sized at a power-of-two byte boundary
     for _ in range(rng.randint(1, max_sessions)):
         sess = []
         for _ in range(rng.randint(1, max_segments)):
@@ -210,8 +216,12 @@ def gen_program(rng, types_mod, max_sessions=3, max_segments=5, max_objects=5, l
                     g = rng.choice(groups)
                     c = rng.choice(['c0', 'c1', rand_name(rng)])
                     kind = chan_kinds.setdefault((g, c), rng.choice(DATA_KINDS))
+                    n_ = rng.choice(lens)
+                    if big_budget and kind.startswith('np:') and kind[3:] != '?':
+                        big_budget.pop()
+                        n_ = (2 ** 20) // np.dtype(kind[3:]).itemsize * rng.choice([1, 1, 2]) + rng.choice([0, 0, 1])
                     key, o = ('chan', g, c), {'kind': 'channel', 'group': g, 'channel': c, 'props': props,
-                                              'data': rand_data(rng, kind, rng.choice(lens))}
+                                              'data': rand_data(rng, kind, n_)}
                 if key in used and rng.random() < 0.9:
                     continue          # duplicates are refused by the writer; keep a few to observe that
                 used.add(key)
@@ -314,12 +324,17 @@ def run_program(prog, nptdms, tmpdir, stream_factory=io.BytesIO):
     for p in (path, path + '_index'):
         if os.path.exists(p):
             os.remove(p)
+    if prog.precreate_empty and prog.target == 'path':
+        open(path, 'wb').close()
+        if prog.index:
+            open(path + '_index', 'wb').close()
+    held = {}
     stream = stream_factory()
     istream = stream_factory() if prog.index else None
     source = build_source(prog, nptdms) if prog.source is not None else None
     for si, sess in enumerate(prog.sessions):
         if prog.target == 'path':
-            w = W(path, mode='w' if si == 0 else 'a', version=prog.version, index_file=bool(prog.index))
+            w = W(path, mode='w' if (si == 0 and not prog.precreate_empty) else 'a', version=prog.version, index_file=bool(prog.index))
         else:
             w = W(stream, version=prog.version, index_file=istream if prog.index else False)
         repair = None
@@ -335,9 +350,22 @@ def run_program(prog, nptdms, tmpdir, stream_factory=io.BytesIO):
                     elif o['kind'] == 'tdmschannel':
                         objs.append(source[o['group']][o['channel']])
                     elif o['kind'] == 'group':
-                        objs.append(nptdms.GroupObject(o['group'], props))
+                        if prog.reuse_objects and 'g' in held and not any(x is held['g'] for x in objs):
+                            held['g'].group, held['g'].properties = o['group'], props
+                            objs.append(held['g'])
+                        else:
+                            held['g'] = nptdms.GroupObject(o['group'], props)
+                            objs.append(held['g'])
                     else:
-                        objs.append(nptdms.ChannelObject(o['group'], o['channel'], o['data'].data, props))
+                        if prog.reuse_objects and 'c' in held and not any(x is held['c'] for x in objs):
+                            co = held['c']
+                            co.group, co.channel, co.properties = o['group'], o['channel'], props
+                            # the data attribute is normalised by the constructor: take it from a throw-away object
+                            co.data = nptdms.ChannelObject('x', 'y', o['data'].data).data
+                            objs.append(co)
+                        else:
+                            held['c'] = nptdms.ChannelObject(o['group'], o['channel'], o['data'].data, props)
+                            objs.append(held['c'])
                 if prog.target == 'stream':
                     before = (stream.tell(), istream.tell() if istream is not None else None)
                 else:
